@@ -99,6 +99,11 @@ def fn_table(spec, rec):
                 rec.label("zero-rows:reader-raises:" + type(e).__name__)
                 return
             raise Mismatch("reader-raises/%s/%s" % (spec["format"], type(e).__name__), repr(e))
+        if mask is not None and not mask.any():
+            # whatever a reader makes of a table without rows, it must not contain rows: exactly the selected rows were to be written
+            rows = sum(int(x.size) for x in (back if isinstance(back, list) else ([] if back is None else [back])))
+            if rows:
+                raise Mismatch("empty-subset-exported-with-rows/" + spec["format"], {"rows_loaded": rows})
         if mask is not None and not mask.any() and (back is None or (isinstance(back, list) and len(back) != 1)):
             rec.label("zero-rows:loaded-as-%s-datasets" % (0 if back is None else len(back)))
             return
